@@ -14,6 +14,11 @@ random generator reaches only rarely:
                     a member fails in a group whose OWN scope is shielded while every other
                     task of the group sits in a shielded section (delivery winds down); they
                     then leave the section and block in ordinary code               -> C02
+ swallow_and_reblock
+                    a task that is runnable (bare yields) or blocked inside 1-3 nested scopes,
+                    any subset of them cancelled in ONE step (outer-first / inner-first),
+                    catches the cancellation and blocks again once or twice: every new wait
+                    must be interrupted again                                       -> C03
  scope_chains       exhaustive: scope chains of depth <= 3 x every shield assignment x every
                     subset of scopes cancelled x cancel timing x canceller          -> C04
  scope_histories    sequences of 1-6 scopes entered and left one after another on one task,
@@ -171,6 +176,44 @@ def shielded_group_failure():  # noqa: ANN201
                             root = [["scope", "s1", False, None, [["group", 1, members, body]]],
                                     ["cp", 1]]  # fmt: skip
                             yield _p(cfg, root, [], "fam:shielded_group_failure")
+
+
+def swallow_and_reblock():  # noqa: ANN201
+    for cfg in CFGS:
+        for depth in (1, 2, 3):
+            sids = [f"s{i + 1}" for i in range(depth)]
+            for subset in range(1, 1 << depth):
+                victims = [sids[i] for i in range(depth) if subset >> i & 1]
+                for order in ("outer-first", "inner-first"):
+                    if len(victims) == 1 and order == "inner-first":
+                        continue
+
+                    cancels = [["cancel", v] for v in (victims if order == "outer-first"
+                                                       else reversed(victims))]  # fmt: skip
+                    for block in (["forever"], ["cp", 40], ["sleep", 50]):
+                        for swallow in (1, 2):
+                            for at in (1, 2, 3):
+                                for who in ("sibling", "agent-before", "agent-after"):
+                                    body: list = [["wait", "e0"]]
+                                    for _ in range(swallow):
+                                        body = [["catch_then", [block], body]]
+
+                                    for i in reversed(range(depth)):
+                                        body = [["scope", sids[i], False, None, body + [["cp", 1]]]]
+
+                                    agents = []
+                                    sibling_body: list = [["cp", 2]]
+                                    if who == "sibling":
+                                        sibling_body = [["cp", at]] + cancels + [["cp", 2]]
+                                    else:
+                                        agents = [{"at": at + 1, "place": who.split("-")[1], "do": c}
+                                                  for c in cancels]  # fmt: skip
+
+                                    root = [["group", 9, [
+                                        {"tid": 1, "how": "start_soon", "body": body + [["cp", 2]]},
+                                        {"tid": 2, "how": "start_soon", "body": sibling_body},
+                                    ], [["cp", 1]]]]  # fmt: skip
+                                    yield _p(cfg, root, agents, "fam:swallow_and_reblock")
 
 
 def scope_chains():  # noqa: ANN201
